@@ -107,7 +107,51 @@ def grid4d_is_N_unique_rotations(alg_name, N, result):
     return True
 
 
+def hemisphere_set_is_canonical(quaternions, upper, result):
+    """the selection step behind the random rotation grids: every output row is +-the input row and lies in the requested half"""
+    mon = "C07.hemisphere_selection"
+    try:
+        Q = np.asarray(quaternions, dtype=float)
+        R = np.asarray(result, dtype=float)
+        ok = R.shape == Q.shape
+        if ok:
+            same = np.all(R == Q, axis=1) | np.all(R == -Q, axis=1)
+            can = np.array([canonical(r) for r in R])
+            # the package treats |x| <= 1e-8 as zero, the statement says "first non-zero coordinate": leading coordinates with a
+            # magnitude between 1e-12 and 1e-6 are in the unspecified band and such rows are not judged
+            band = np.any((np.abs(Q) > 1e-12) & (np.abs(Q) < 1e-6), axis=1)
+            zero = np.all(np.abs(Q) <= 1e-9, axis=1)
+            ok = bool(np.all(same) and np.all((can == bool(upper)) | zero | band))
+            REC.notes["C07 hemisphere rows in the unspecified zero band"] += int(band.sum())
+        REC.check(mon, ok, lambda: {"upper": upper, "first_bad_row": Q[int(np.argmin(same & (can == bool(upper))))] if R.shape == Q.shape else None})
+    except Exception as e:
+        REC.crashed("C07.oracle_error", e)
+    return True
+
+
+def drive_hemisphere(n_batches, seed):
+    """hostile inputs for the selection: leading coordinates that are tiny, zero, or of opposite sign to the next one"""
+    import molgri.space.utils as U
+    rng = np.random.default_rng(seed)
+    for b in range(n_batches):
+        Q = rng.normal(size=(400, 4))
+        k = rng.integers(0, 4, size=400)
+        scale = 10.0 ** rng.uniform(-6, 0, size=400)
+        for c in range(3):
+            Q[:, c] = np.where(k > c, Q[:, c] * scale * (rng.random(400) < 0.7), Q[:, c])   # tiny or exactly zero leading coordinates
+        Q /= np.linalg.norm(Q, axis=1, keepdims=True)
+        REC.begin_case({"kind": "hemisphere selection", "batch": b}, cls="hemisphere selection")
+        for upper in (True, False):
+            try:
+                U.hemisphere_quaternion_set(Q.copy(), upper=upper)
+            except Exception as e:
+                REC.crashed("C07.call_raised", e)
+        REC.nontrivial_case(("hemisphere", seed, b))
+
+
 def install():
+    import molgri.space.utils as U
+    attach.ensure(U, "hemisphere_quaternion_set", hemisphere_set_is_canonical)
     from molgri.space.rotobj import SphereGrid3DFactory, SphereGrid4DFactory
     attach.ensure(SphereGrid3DFactory, "create", grid3d_is_N_distinct_unit_points)
     attach.ensure(SphereGrid4DFactory, "create", grid4d_is_N_unique_rotations)
@@ -179,6 +223,7 @@ def run_shard(spec):
         drive(F3, F4, alg, N)
     if spec.get("by_name"):
         by_name(F3, F4)
+        drive_hemisphere(10 if spec["tier"] == "quick" else 100, spec.get("seed", 0))
 
 
 def replay(case):
